@@ -426,7 +426,7 @@ class C04(core.Check):
                 T = r.randbytes(len(B) + r.randrange(1, 5000))
             else:
                 T = B
-            bkind = r.choice(["zckverifBOUNDARY", "00000000000abcdef", "a+b(c).d?e", "x"])
+            bkind = r.choice(["zckverifBOUNDARY", "00000000000abcdef", "a+b(c).d?e", "x", "simple~boundary", "gc0p4Jq0M:2Yt08j~34c0p"])
             self.nreal = getattr(self, "nreal", 0)
             if self.nreal < (60 if self.quick else 1500) and (len(out) % (3 if self.quick else 4) == 0):
                 self.nreal += 1
@@ -435,6 +435,6 @@ class C04(core.Check):
                             "quote": r.random() < 0.5, "zckdl": ctx["zckdl"], "www": ctx["www"], "httplog": ctx["httplog"], "port": ctx["port"]})
             out.append({"name": name, "akind": akind, "tkind": tkind, "A": core.b64(A) if A else None, "B": core.b64(B),
                         "T": core.b64(T) if T is not None else None, "limit": r.choice([1, 2, 3, 7, 127, 255, -1]),
-                        "style": r.choice([0, 0, 1, 2, 4, 8, 16, 32, 7]) | (1 if "(" in bkind else 0), "boundary": bkind,
+                        "style": r.choice([0, 0, 1, 2, 4, 8, 16, 32, 7]) | (1 if "(" in bkind or "~" in bkind else 0) | r.choice([0, 0, 0, 128, 256, 512, 384]), "boundary": bkind,
                         "frag": r.choice(["all", "n:16384", "parts", "parts", "rand:%d:16384" % r.randrange(1 << 20), "rand:%d:50" % r.randrange(1 << 20), "n:1" if len(B) < 30000 else "n:1000"]),
                         "zh": ctx["zh"]})
